@@ -1,11 +1,13 @@
 import TakVerif.Impl.Minimax
 import TakVerif.Generated.FuncsAI
+import TakVerif.Proofs.GenMove
 
 /-! Tie #1 for C05: `teSuffices` (when a transposition-table entry may answer a search) is regenerated from
 `ai/minimax.go` on every run, together with the `tableEntry` struct; the model's `teSuffices`, on which the table
 theorems (`Proofs/SearchTable.lean`, `C05`) rest, is proved equal to it.  `WinThreshold` and the numeric order of
 `lowerBound/exactBound/upperBound` enter the regenerated definition as evaluated constants and the model through
-`Generated/Facts*.lean`: the bridge re-checks that the two agree. -/
+`Generated/Facts*.lean`: the bridge re-checks that the two agree.  `Move.Equal` (how the move generator recognises the
+table move, the PV move and the response move; `takGame.moveEq`) is regenerated from `tak/move.go`. -/
 namespace C05
 open Tak Search
 
@@ -36,5 +38,11 @@ theorem teSuffices_is_source {M : Type} (te : TEntry M) (hb : te.bound < 256) (d
     simp [hd, b1, b2, b0, ha, hbt, hw, hw2] <;> omega
 
 example : Gen.teSuffices { hash := 0#64, value := 7, m := default, bound := 2#8, depth := 3 } 3 8 9 = true := by decide
+
+/-- `Move.Equal`, the move comparison of the search's Tak instance (`takGame.moveEq := Move.equal`) -/
+theorem moveEqual_is_source (m r : Move) (hm : m.type < 256) (hr : r.type < 256) :
+    m.equal r = Gen.moveEqual (GenMove.genMove m) (GenMove.genMove r) := GenMove.equal_is_source m r hm hr
+
+example : Gen.moveEqual (GenMove.genMove ⟨1, 2, 2, 0x11#32⟩) (GenMove.genMove ⟨1, 2, 2, 0#32⟩) = true := by decide
 
 end C05
